@@ -1,11 +1,12 @@
 //@ item: integer/src/gcd_ops.rs :: macro impl_ibig_gcd_ext#0 :: @arm
-/*@ requires mag0.wf(), mag1.wf(),
+/*@[!inl] requires mag0.wf(), mag1.wf(),
         mag0.v() != 0 || mag1.v() != 0,        // gcd_ext(0, 0) panics (documented)
         im_gcd_ext_res(mag0.nwords(), mag1.nwords()),     // resource bound for two `Large` operands
     // C12 / C15 on the SIGNED operands a = sign0 * mag0, b = sign1 * mag1: g >= 1, g | a, g | b, s*a + t*b == g
     ensures repr_gcd_ext_post(sv(sign0, mag0.v()), sv(sign1, mag1.v()), ret.0.0.v(), ret.1.0.v(), ret.2.0.v()), @*/
 {
-        /*@ proof { lemma_im_gcd_ext_signs(sign0, mag0.v(), sign1, mag1.v()); } @*/
+        /*@[!inl] proof { lemma_im_gcd_ext_signs(sign0, mag0.v(), sign1, mag1.v()); } @*/
+        /*@[inl] proof { lemma_im_gcd_ext_signs($sign0, $mag0.v(), $sign1, $mag1.v()); } @*/
         let (r, s, t) = $mag0.gcd_ext($mag1);
         (UBig(r), $sign0 * IBig(s), $sign1 * IBig(t))
     }
